@@ -79,7 +79,10 @@ Definition chk_search (x l : list Qc) (r : list (obs (list Z))) : bool :=
         nrand = 300 if tier == "quick" else 3000
         for _ in range(nrand):
             n = rng.randint(1, 12)
-            if rng.random() < 0.3:    # decimal grids: elements are not binary fractions, midpoints are rounded
+            if rng.random() < 0.1:    # integer samples on a large offset: spacing tiny relative to the magnitude
+                from tools.harness import gens as _g
+                x = _g.epoch_x(rng, n)
+            elif rng.random() < 0.3:    # decimal grids: elements are not binary fractions, midpoints are rounded
                 x = sorted({round(rng.randint(-30, 30) * rng.choice([0.1, 0.05, 0.3, 1.35]), 6) for _ in range(n)})
             else:
                 x = sorted({rng.choice([rng.uniform(-100, 100), float(rng.randint(-20, 20)), rng.uniform(-1, 1) * 2.0 ** rng.randint(-30, 30)]) for _ in range(n)})
